@@ -900,6 +900,25 @@ func (in *inst) merge(b *ssa.BasicBlock, preds []*State, predBlocks []*ssa.Basic
 				joinBounds(st, v.Int, incs)
 			}
 		}
+		// the same for the length of a slice chosen on the way (`tmp := s.buf; if len(tmp) < n { tmp = make([]byte, n) }`)
+		if v.Kind == KSlice {
+			var incs []inc
+			allSl := true
+			for i, pb := range b.Preds {
+				for j, q := range predBlocks {
+					if q == pb {
+						x := in.val(preds[j], ph.Edges[i])
+						if x.Kind != KSlice {
+							allSl = false
+						}
+						incs = append(incs, inc{preds[j], x.Len})
+					}
+				}
+			}
+			if allSl && len(incs) >= 2 && len(incs) <= 4 {
+				joinBounds(st, v.Len, incs)
+			}
+		}
 		// constant range
 		if v.Kind == KInt {
 			var lo, hi *big.Rat
